@@ -23,17 +23,25 @@ ID = 'C18'
 TITLE = 'Unpacking a dataset archive never writes outside the install directory'
 GEN = []
 RULE = ('each case = an archive of 1..7 members; kinds file/dir/symlink/hardlink/fifo; names from {plain, nested, ./x, a/../b, '
-        '../x, ../../x, /abs, ../<install dir name>/x, through a previously created link}; link targets from {sibling, sub/dir, '
+        '../x, ../../x, /abs, ../<install dir name>/x, ../<missing>/../<install dir name>/x (the member lands inside, its parent '
+        'directories would not), through a previously created link}; link targets from {sibling, sub/dir, '
         '.., ../.., /abs, chain via another link}; 40% benign archives; gz or not. distinct non-trivial = distinct archives with at '
         'least one hostile name or link')
 ASSUMPTIONS = [
-    'tarfile\'s data filter (CPython 3.12) and os.path.realpath are modelled, not verified; with link chains the theorems cover '
-    'the acceptance guards only (PARTIAL), the correspondence covers the resulting trees',
+    'tarfile\'s data filter (CPython 3.12), os.path.realpath, os.makedirs and the kernel\'s path walk (open / mkdir / symlink / '
+    'link through symbolic links) are MODELLED (Model/C18.lean), not verified: the theorems say that in the model no entry is '
+    'ever created or replaced outside the install directory, for any archive and any tree with links; the correspondence ties '
+    'the model to the real extraction (same tree, same error family) and the oracle snapshots the real world outside',
+    'the world outside the install directory: its ancestors are plain directories, nothing else exists there as far as the '
+    'model is concerned (an entry created there IS the verdict `escaped`); hard-link fallbacks of tarfile (copy from the '
+    'archive when os.link cannot be used) are `unmodelled` and judged by the oracle only',
     'everything above the install directory is a plain directory without symbolic links (true of the sandbox)',
     'permissions: only owner read/write of extracted regular files is checked (set_attrs=False leaves the rest to the umask)',
 ]
 TRUSTED = ['tarfile', 'os.path.realpath']
-PARTIAL = 'link-free archives: full extraction theorem; archives with links: acceptance guards proved, resulting tree by correspondence'
+PARTIAL = ('containment is proved for ALL archives and trees, links included (untar_never_escapes); that benign members are '
+           'extracted with their content is proved for one-component names in link-free trees only (benign_file_extracted_partial) '
+           'and otherwise checked by the oracle; tarfile\'s hard-link copy fallback is outside the model')
 _cache = {}
 
 
@@ -58,7 +66,11 @@ def gen_members(rng, benign):
                                'd0/../../e%d' % i, './ok%d' % i, '../{DEST}/back%d' % i, 'x/./y/../z%d' % i, '..', 'd0//f%d' % i] +
                               [l + '/via%d' % i for l in links] + [l + '/../up%d' % i for l in links] +
                               [l + '/decoy.txt' for l in links] +
-                              ['../decoy.txt', '../outside_dir/keep.txt', '../../grand.txt', '{PARENT}/decoy.txt'])
+                              ['../decoy.txt', '../outside_dir/keep.txt', '../../grand.txt', '{PARENT}/decoy.txt'] +
+                              # names that leave the install directory through a component that does not exist and come
+                              # back: the member itself lands inside, the directories made on the way do not
+                              ['../new%d/../{DEST}/x%d' % (i, i), '../n%d/m/../../{DEST}/y%d' % (i, i),
+                               'd0/../../side%d/../{DEST}/d0/z%d' % (i, i), '../outside_dir/fresh%d/../../{DEST}/w%d' % (i, i)])
             link = ''
             if kind in ('sym', 'hard'):
                 # hard-link targets are resolved by tarfile from the archive root, symbolic ones from the link's directory:
@@ -102,6 +114,12 @@ def cases(rng, tier):
         out.append({'members': [{'kind': 'sym', 'name': 'd0/here', 'linkname': '.', 'content': 1},
                                 {'kind': 'sym', 'name': 'd0/esc', 'linkname': 'here/../..', 'content': 2},
                                 {'kind': 'file', 'name': 'd0/esc/' + tail, 'linkname': '', 'content': 3}], 'benign': False, 'gz': False})
+    # the member lands inside, the parent directories created on the way (os.makedirs on the literal path) do not
+    for name in ('../newdir/../{DEST}/x.txt', '../n1/n2/../../{DEST}/y.txt', '../outside_dir/fresh/../../{DEST}/w.txt',
+                 'd0/../../side/../{DEST}/d0/z.txt'):
+        for kind in ('file', 'dir', 'sym'):
+            out.append({'members': [{'kind': kind, 'name': name, 'linkname': 'f0' if kind == 'sym' else '', 'content': 1}],
+                        'benign': False, 'gz': False})
     # members NAMED like files that exist outside (relative and absolute names), writable or read-only: refused or extracted
     # inside, the outside file must still be there, unchanged
     for name in ('../decoy.txt', '../outside_dir/keep.txt', '../../grand.txt', 'd0/../../decoy.txt', '{PARENT}/decoy.txt',
@@ -265,6 +283,10 @@ def compare(case, io_, mo):
     ie = io_['error']
     if me == 'unmodelled':
         return None     # hard-link fallbacks of tarfile outside the model; the oracle still applies
+    if me == 'escaped':
+        # Props/C18.lean proves this verdict unreachable for the modelled code: reaching it means the code under test
+        # creates an entry outside the install directory according to the model (the oracle looks at the real tree)
+        return f'model: an entry would be created outside the install directory (impl: {ie})'
     fam_m = None if me is None else ('filter' if me in FILTER_ERRORS else ('other' if me == 'KeyError' else 'os'))
     fam_i = None if ie is None else ie.split(':')[0]
     if fam_m != fam_i:
